@@ -16,18 +16,18 @@ Proof.
 Qed.
 
 (* the three outcomes of a first event, characterised on the input *)
-Lemma step_first_cases : forall g sty e, cfg_facts g ->
-  (is_accepted_connect g sty e = true /\ validator_aborts g sty e = false /\
+Lemma step_first_cases : forall g sty reg e, cfg_facts g ->
+  (is_accepted_connect g sty reg e = true /\ validator_aborts g sty e = false /\
    exists m, e_in e = InMsg m /\
-     step_first g sty e = (Accepted, [Reply (e_conn e) RConnectOk (m_seq m) (m_ser m)], false)) \/
-  (is_accepted_connect g sty e = false /\ validator_aborts g sty e = true /\
-   exists s o, step_first g sty e = (s, o, match sty with Multiplex => true | Thread => false end) /\
+     step_first g sty reg e = (Accepted, [Reply (e_conn e) RConnectOk (m_seq m) (m_ser m)], false)) \/
+  (is_accepted_connect g sty reg e = false /\ validator_aborts g sty e = true /\
+   exists s o, step_first g sty reg e = (s, o, match sty with Multiplex => true | Thread => false end) /\
      dead s = true /\ (o = [] \/ o = [SockClosed (e_conn e)]) /\ (sty = Thread -> o = [])) \/
-  (is_accepted_connect g sty e = false /\ validator_aborts g sty e = false /\
-   exists rs, step_first g sty e = (Closed, rs ++ [SockClosed (e_conn e)], false) /\
+  (is_accepted_connect g sty reg e = false /\ validator_aborts g sty e = false /\
+   exists rs, step_first g sty reg e = (Closed, rs ++ [SockClosed (e_conn e)], false) /\
      (rs = [] \/ exists k s i, rs = [Reply (e_conn e) (RConnectFail k) s i])).
 Proof.
-  intros g sty e F. unfold step_first, is_accepted_connect, validator_aborts.
+  intros g sty reg e F. unfold step_first, is_accepted_connect, validator_aborts.
   rewrite (gated_true g sty F).
   destruct (denied_applies sty e); cbn.
   - (* denied by the thread-pool server *)
@@ -38,7 +38,7 @@ Proof.
     + exists []. split; [reflexivity|]. left; reflexivity.
     + exists [Reply (e_conn e) (RConnectFail RsnOther) 0%N (c_marshal g)]. split; [reflexivity|]. right. eauto.
   - destruct (e_in e) as [m| |].
-    + destruct (hs_result_cases g m F) as [[A H]|[[A [B [kb H]]]|[A [B (r & H & S)]]]]; rewrite H, A.
+    + destruct (hs_result_cases g reg m F) as [[A H]|[[A [B [kb H]]]|[A [B (r & H & S)]]]]; rewrite H, A.
       * left. split; [reflexivity|]. split.
         -- destruct (q_abort_unanswered g); cbn; [|reflexivity].
            unfold is_accepted_msg in A. destruct (m_val m) as [[]|[]|kb]; try rewrite andb_false_r; try reflexivity.
@@ -58,11 +58,11 @@ Proof.
       exists [Reply (e_conn e) (RConnectFail RsnOther) 0%N (c_marshal g)]. split; [reflexivity|]. right. eauto.
 Qed.
 
-Lemma step_first_no_exec : forall g sty e, cfg_facts g -> forall c' t tok,
-  ~ In (Exec c' t tok) (snd (fst (step_first g sty e))).
+Lemma step_first_no_exec : forall g sty reg e, cfg_facts g -> forall c' t tok,
+  ~ In (Exec c' t tok) (snd (fst (step_first g sty reg e))).
 Proof.
-  intros g sty e F c' t tok H.
-  destruct (step_first_cases g sty e F) as [(_ & _ & m & _ & S)|[(_ & _ & s0 & o & S & _ & Ro & _)|(_ & _ & rs & S & R)]];
+  intros g sty reg e F c' t tok H.
+  destruct (step_first_cases g sty reg e F) as [(_ & _ & m & _ & S)|[(_ & _ & s0 & o & S & _ & Ro & _)|(_ & _ & rs & S & R)]];
     rewrite S in H; cbn in H.
   - destruct H as [H|H]; [discriminate|contradiction].
   - destruct Ro as [->| ->]; cbn in H; [contradiction|]. destruct H as [H|[]]. discriminate.
@@ -74,11 +74,11 @@ Qed.
 (* ------------------------------------------------------------------ later events *)
 (* an execution in the request loop is on behalf of the connection itself, and (given the
    accepted types of handleRequest) comes from an INVOKE message *)
-Lemma step_later_msg_exec : forall g c m c' t tok,
-  In (Exec c' t tok) (snd (step_later_msg g c m)) ->
+Lemma step_later_msg_exec : forall g reg c m c' t tok,
+  In (Exec c' t tok) (snd (step_later_msg g reg c m)) ->
   c' = c /\ (cfg_facts g -> m_type m = c_invoke g).
 Proof.
-  intros g c m c' t tok. unfold step_later_msg.
+  intros g reg c m c' t tok. unfold step_later_msg.
   assert (NR : forall k, ~ In (Exec c' t tok) (if m_oneway m then [] else [Reply c k (m_seq m) (m_ser m)])).
   { intros k. destruct (m_oneway m); cbn; intros H; auto. destruct H as [H|H]; auto; discriminate. }
   assert (NC : ~ In (Exec c' t tok) [SockClosed c]).
@@ -94,12 +94,12 @@ Proof.
     try (intros [H|H]; [discriminate|contradiction]);
     destruct (m_ser_known m); cbn;
     try (destruct (m_oneway m); cbn; intros H; exfalso; [exact H | apply NC; exact H]);
-    destruct (m_call m) as [d|known tg me tk]; cbn.
+    destruct (m_call m) as [d|o tg me tk]; cbn.
   - destruct d; cbn; intros H.
     + exfalso. eapply NR; exact H.
     + exfalso. apply in_app_or in H. destruct H as [H|H]; [eapply NR; exact H | apply NC; exact H].
     + exfalso. apply NC; exact H.
-  - destruct known; cbn.
+  - destruct (match o with Some n => reg n | None => false end); cbn.
     + destruct me; cbn; intros H.
       * exfalso. eapply NR; exact H.
       * destruct H as [H|H]; [inversion H; subst; split; auto | exfalso; eapply NR; exact H].
@@ -107,20 +107,20 @@ Proof.
     + intros H. exfalso. eapply NR; exact H.
 Qed.
 
-Lemma step_later_exec : forall g sty c i c' t tok,
-  In (Exec c' t tok) (snd (step_later g sty c i)) ->
+Lemma step_later_exec : forall g sty reg c i c' t tok,
+  In (Exec c' t tok) (snd (step_later g sty reg c i)) ->
   c' = c /\ exists m, i = InMsg m /\ (cfg_facts g -> m_type m = c_invoke g).
 Proof.
-  intros g sty c i c' t tok H. destruct i as [m| |]; cbn in H.
+  intros g sty reg c i c' t tok H. destruct i as [m| |]; cbn in H.
   - apply step_later_msg_exec in H. destruct H as [H1 H2]. split; [auto|]. exists m. auto.
   - destruct H as [H|[]]. discriminate.
   - destruct sty; cbn in H; [destruct H as [H|[]]; discriminate | contradiction].
 Qed.
 
-Lemma step_later_no_connectok : forall g sty c i c' s j,
-  ~ In (Reply c' RConnectOk s j) (snd (step_later g sty c i)).
+Lemma step_later_no_connectok : forall g sty reg c i c' s j,
+  ~ In (Reply c' RConnectOk s j) (snd (step_later g sty reg c i)).
 Proof.
-  intros g sty c i c' s j H. destruct i as [m| |]; cbn in H.
+  intros g sty reg c i c' s j H. destruct i as [m| |]; cbn in H.
   - unfold step_later_msg in H.
     repeat (match type of H with context [match ?X with _ => _ end] => destruct X end; cbn in H;
             try contradiction);
@@ -136,31 +136,31 @@ Proof.
   - destruct sty; cbn in H; [destruct H as [H|[]]; discriminate | contradiction].
 Qed.
 
-Lemma step_later_state : forall g sty c i, fst (step_later g sty c i) = Accepted \/ fst (step_later g sty c i) = Closed.
+Lemma step_later_state : forall g sty reg c i, fst (step_later g sty reg c i) = Accepted \/ fst (step_later g sty reg c i) = Closed.
 Proof.
-  intros g sty c i. destruct i as [m| |]; cbn; auto.
+  intros g sty reg c i. destruct i as [m| |]; cbn; auto.
   - unfold step_later_msg.
     repeat (match goal with |- context [match ?X with _ => _ end] => destruct X end; cbn; auto).
   - destruct sty; cbn; auto.
 Qed.
 
 (* ------------------------------------------------------------------ one step *)
-Lemma step_dead : forall g sty st e, dead (st (e_conn e)) = true -> step g sty st e = (st, []).
-Proof. intros g sty st e H. unfold step. destruct (st (e_conn e)); try discriminate; reflexivity. Qed.
+Lemma step_dead : forall g sty reg st e, dead (st (e_conn e)) = true -> step_conn g sty reg st e = (st, []).
+Proof. intros g sty reg st e H. unfold step_conn. destruct (st (e_conn e)); try discriminate; reflexivity. Qed.
 
-Lemma step_fresh : forall g sty st e, st (e_conn e) = NotHandshaken ->
-  step g sty st e =
-  (upd (if snd (step_first g sty e) then all_abandoned else st) (e_conn e) (fst (fst (step_first g sty e))),
-   snd (fst (step_first g sty e))).
+Lemma step_fresh : forall g sty reg st e, st (e_conn e) = NotHandshaken ->
+  step_conn g sty reg st e =
+  (upd (if snd (step_first g sty reg e) then all_abandoned else st) (e_conn e) (fst (fst (step_first g sty reg e))),
+   snd (fst (step_first g sty reg e))).
 Proof.
-  intros g sty st e H. unfold step. rewrite H. destruct (step_first g sty e) as [[s o] k]. reflexivity.
+  intros g sty reg st e H. unfold step_conn. rewrite H. destruct (step_first g sty reg e) as [[s o] k]. reflexivity.
 Qed.
 
-Lemma step_accepted : forall g sty st e, st (e_conn e) = Accepted ->
-  step g sty st e =
-  (upd st (e_conn e) (fst (step_later g sty (e_conn e) (e_in e))), snd (step_later g sty (e_conn e) (e_in e))).
+Lemma step_accepted : forall g sty reg st e, st (e_conn e) = Accepted ->
+  step_conn g sty reg st e =
+  (upd st (e_conn e) (fst (step_later g sty reg (e_conn e) (e_in e))), snd (step_later g sty reg (e_conn e) (e_in e))).
 Proof.
-  intros g sty st e H. unfold step. rewrite H. destruct (step_later g sty (e_conn e) (e_in e)). reflexivity.
+  intros g sty reg st e H. unfold step_conn. rewrite H. destruct (step_later g sty reg (e_conn e) (e_in e)). reflexivity.
 Qed.
 
 Lemma upd_same : forall st c s, upd st c s c = s.
@@ -169,11 +169,11 @@ Lemma upd_other : forall st c s c', c' <> c -> upd st c s c' = st c'.
 Proof. intros. unfold upd. destruct (Nat.eqb_spec c' c); [contradiction|reflexivity]. Qed.
 
 (* an Exec can only come out of a step taken in state Accepted, for that very connection *)
-Lemma step_exec_accepted : forall g sty st e c t tok, cfg_facts g ->
-  In (Exec c t tok) (snd (step g sty st e)) ->
+Lemma step_exec_accepted : forall g sty reg st e c t tok, cfg_facts g ->
+  In (Exec c t tok) (snd (step_conn g sty reg st e)) ->
   c = e_conn e /\ st c = Accepted /\ exists m, e_in e = InMsg m /\ m_type m = c_invoke g.
 Proof.
-  intros g sty st e c t tok F H.
+  intros g sty reg st e c t tok F H.
   destruct (st (e_conn e)) eqn:E.
   - rewrite step_fresh in H by assumption. cbn in H. exfalso. eapply step_first_no_exec; eassumption.
   - rewrite step_accepted in H by assumption. cbn in H.
@@ -184,16 +184,16 @@ Proof.
 Qed.
 
 (* how a connection can come to be in state Accepted after a step *)
-Lemma step_accepted_inv : forall g sty st e c, cfg_facts g ->
-  fst (step g sty st e) c = Accepted ->
+Lemma step_accepted_inv : forall g sty reg st e c, cfg_facts g ->
+  fst (step_conn g sty reg st e) c = Accepted ->
   st c = Accepted \/
-  (c = e_conn e /\ st c = NotHandshaken /\ is_accepted_connect g sty e = true /\
-   exists m, e_in e = InMsg m /\ snd (step g sty st e) = [Reply c RConnectOk (m_seq m) (m_ser m)]).
+  (c = e_conn e /\ st c = NotHandshaken /\ is_accepted_connect g sty reg e = true /\
+   exists m, e_in e = InMsg m /\ snd (step_conn g sty reg st e) = [Reply c RConnectOk (m_seq m) (m_ser m)]).
 Proof.
-  intros g sty st e c F H.
+  intros g sty reg st e c F H.
   destruct (st (e_conn e)) eqn:E.
   - rewrite step_fresh in H |- * by assumption. cbn in H |- *.
-    destruct (step_first_cases g sty e F) as [(A & _ & m & I & S)|[(_ & _ & s0 & o & S & D & _ & _)|(_ & _ & rs & S & _)]];
+    destruct (step_first_cases g sty reg e F) as [(A & _ & m & I & S)|[(_ & _ & s0 & o & S & D & _ & _)|(_ & _ & rs & S & _)]];
       rewrite S in H |- *; cbn in H |- *.
     + destruct (Nat.eq_dec c (e_conn e)) as [->|N].
       * right. split; [reflexivity|]. split; [assumption|]. split; [assumption|]. exists m. auto.
@@ -211,20 +211,20 @@ Proof.
 Qed.
 
 (* a step never makes a connection NotHandshaken; a connection that is still NotHandshaken was not the one stepped *)
-Lemma step_fresh_inv : forall g sty st e c, cfg_facts g ->
-  fst (step g sty st e) c = NotHandshaken -> st c = NotHandshaken /\ c <> e_conn e.
+Lemma step_fresh_inv : forall g sty reg st e c, cfg_facts g ->
+  fst (step_conn g sty reg st e) c = NotHandshaken -> st c = NotHandshaken /\ c <> e_conn e.
 Proof.
-  intros g sty st e c F H.
+  intros g sty reg st e c F H.
   destruct (st (e_conn e)) eqn:E.
   - rewrite step_fresh in H by assumption. cbn in H.
-    destruct (step_first_cases g sty e F) as [(_ & _ & m & _ & S)|[(_ & _ & s0 & o & S & D & _ & _)|(_ & _ & rs & S & _)]];
+    destruct (step_first_cases g sty reg e F) as [(_ & _ & m & _ & S)|[(_ & _ & s0 & o & S & D & _ & _)|(_ & _ & rs & S & _)]];
       rewrite S in H; cbn in H;
       (destruct (Nat.eq_dec c (e_conn e)) as [->|N];
        [rewrite upd_same in H; try discriminate; rewrite H in D; discriminate|];
        rewrite upd_other in H by assumption; try (destruct sty; cbn in H; try discriminate); auto).
   - rewrite step_accepted in H by assumption. cbn in H.
     destruct (Nat.eq_dec c (e_conn e)) as [->|N].
-    + rewrite upd_same in H. destruct (step_later_state g sty (e_conn e) (e_in e)) as [X|X]; rewrite X in H; discriminate.
+    + rewrite upd_same in H. destruct (step_later_state g sty reg (e_conn e) (e_in e)) as [X|X]; rewrite X in H; discriminate.
     + rewrite upd_other in H by assumption. auto.
   - rewrite step_dead in H by (rewrite E; reflexivity). cbn in H. split; [assumption|].
     intros ->. rewrite E in H. discriminate.
@@ -233,15 +233,15 @@ Proof.
 Qed.
 
 (* a step on another connection leaves c alone, unless it ends the daemon's request loop *)
-Lemma step_other : forall g sty st e c, cfg_facts g -> c <> e_conn e ->
-  fst (step g sty st e) c = st c \/
-  (fst (step g sty st e) c = Abandoned /\ sty = Multiplex /\ st (e_conn e) = NotHandshaken /\
+Lemma step_other : forall g sty reg st e c, cfg_facts g -> c <> e_conn e ->
+  fst (step_conn g sty reg st e) c = st c \/
+  (fst (step_conn g sty reg st e) c = Abandoned /\ sty = Multiplex /\ st (e_conn e) = NotHandshaken /\
    validator_aborts g sty e = true).
 Proof.
-  intros g sty st e c F N.
+  intros g sty reg st e c F N.
   destruct (st (e_conn e)) eqn:E.
   - rewrite step_fresh by assumption. cbn.
-    destruct (step_first_cases g sty e F) as [(_ & _ & m & _ & S)|[(_ & V & s0 & o & S & _)|(_ & _ & rs & S & _)]];
+    destruct (step_first_cases g sty reg e F) as [(_ & _ & m & _ & S)|[(_ & V & s0 & o & S & _)|(_ & _ & rs & S & _)]];
       rewrite S; cbn; rewrite upd_other by assumption.
     + left. reflexivity.
     + destruct sty; cbn.
@@ -253,6 +253,42 @@ Proof.
   - rewrite step_dead by (rewrite E; reflexivity). auto.
 Qed.
 
+(* ------------------------------------------------------------------ the whole daemon: one step *)
+Lemma step_app : forall g sty s a,
+  step g sty s (EvApp a) = ({| s_conns := s_conns s; s_reg := app_reg (s_reg s) a |}, []).
+Proof. reflexivity. Qed.
+
+Lemma step_conn_ev : forall g sty s ce,
+  s_conns (fst (step g sty s (EvConn ce))) = fst (step_conn g sty (s_reg s) (s_conns s) ce) /\
+  s_reg (fst (step g sty s (EvConn ce))) = s_reg s /\
+  snd (step g sty s (EvConn ce)) = snd (step_conn g sty (s_reg s) (s_conns s) ce).
+Proof. intros. cbn. auto. Qed.
+
+(* how a connection can come to be in state Accepted after a step of the daemon *)
+Lemma state_accepted_inv : forall g sty s e c, cfg_facts g ->
+  s_conns (fst (step g sty s e)) c = Accepted ->
+  s_conns s c = Accepted \/
+  (exists ce, e = EvConn ce /\ c = e_conn ce /\ s_conns s c = NotHandshaken /\
+     is_accepted_connect g sty (s_reg s) ce = true /\
+     exists m, e_in ce = InMsg m /\ snd (step g sty s e) = [Reply c RConnectOk (m_seq m) (m_ser m)]).
+Proof.
+  intros g sty s e c F H. destruct e as [ce|a].
+  - cbn in H. apply step_accepted_inv in H; [|assumption].
+    destruct H as [H|(E & S & A & m & I & O)]; [auto|].
+    right. exists ce. cbn. repeat split; auto. exists m. auto.
+  - cbn in H. auto.
+Qed.
+
+Lemma state_exec : forall g sty s e c t tok, cfg_facts g ->
+  In (Exec c t tok) (snd (step g sty s e)) ->
+  s_conns s c = Accepted /\ exists ce, e = EvConn ce /\ e_conn ce = c /\
+    exists m, e_in ce = InMsg m /\ m_type m = c_invoke g.
+Proof.
+  intros g sty s e c t tok F H. destruct e as [ce|a]; [|contradiction].
+  cbn in H. apply step_exec_accepted in H; [|assumption]. destruct H as (E & S & M).
+  split; [assumption|]. exists ce. auto.
+Qed.
+
 (* ------------------------------------------------------------------ histories *)
 Lemma final_app : forall g sty evs1 evs2 st,
   final g sty st (evs1 ++ evs2) = final g sty (final g sty st evs1) evs2.
@@ -262,114 +298,208 @@ Lemma final_snoc : forall g sty pre e st,
   final g sty st (pre ++ [e]) = fst (step g sty (final g sty st pre) e).
 Proof. intros. rewrite final_app. reflexivity. Qed.
 
+(* connection events never touch the registry: it is what the application's own calls made it *)
+Lemma reg_final : forall g sty evs s, s_reg (final g sty s evs) = reg_of_history (s_reg s) evs.
+Proof.
+  intros g sty evs. induction evs as [|e r IH]; intros s; cbn; [reflexivity|].
+  rewrite IH. destruct e; reflexivity.
+Qed.
+
+Theorem reg_after_spec : forall g sty pre, reg_after g sty pre = reg_of_history reg_init pre.
+Proof. intros. unfold reg_after. rewrite reg_final. reflexivity. Qed.
+
+Lemma reg_of_history_app : forall a b r, reg_of_history r (a ++ b) = reg_of_history (reg_of_history r a) b.
+Proof. induction a as [|e a IH]; intros; cbn; [reflexivity|]. destruct e; apply IH. Qed.
+
+Definition removes (a : appev) (n : N) : bool :=
+  match a with
+  | Register _ => false
+  | UnregisterById i | UnregisterByObject i | GcWeak i => (i =? n)%N
+  end.
+
+(* an id that is registered after a history is the daemon's own, or was registered by the application and not
+   removed since (by id, by object, or by the collection of a weak registration) *)
+Theorem registered_means_registered : forall pre n,
+  reg_of_history reg_init pre n = true ->
+  n = daemon_oid \/
+  exists p1 p2, pre = p1 ++ EvApp (Register n) :: p2 /\ forall a, In (EvApp a) p2 -> removes a n = false.
+Proof.
+  induction pre as [|e pre IH] using rev_ind; intros n H.
+  - cbn in H. unfold reg_init in H. apply N.eqb_eq in H. auto.
+  - rewrite reg_of_history_app in H. cbn in H.
+    assert (EXT : forall a0, removes a0 n = false -> reg_of_history reg_init pre n = true ->
+                  n = daemon_oid \/ exists p1 p2, pre ++ [EvApp a0] = p1 ++ EvApp (Register n) :: p2 /\
+                    forall a, In (EvApp a) p2 -> removes a n = false).
+    { intros a0 R P. destruct (IH n P) as [D|(p1 & p2 & -> & K)]; [auto|]. right.
+      exists p1, (p2 ++ [EvApp a0]). split; [rewrite <- app_assoc; reflexivity|].
+      intros a Ha. apply in_app_or in Ha. destruct Ha as [Ha|[Ha|[]]]; [auto|]. inversion Ha; subst. assumption. }
+    destruct e as [ce|a].
+    + destruct (IH n H) as [D|(p1 & p2 & -> & K)]; [auto|]. right.
+      exists p1, (p2 ++ [EvConn ce]). split; [rewrite <- app_assoc; reflexivity|].
+      intros a Ha. apply in_app_or in Ha. destruct Ha as [Ha|[Ha|[]]]; [auto|discriminate].
+    + assert (REM : forall i, a = UnregisterById i \/ a = UnregisterByObject i \/ a = GcWeak i ->
+                    reg_remove (reg_of_history reg_init pre) i n = true ->
+                    n = daemon_oid \/ exists p1 p2, pre ++ [EvApp a] = p1 ++ EvApp (Register n) :: p2 /\
+                      forall a', In (EvApp a') p2 -> removes a' n = false).
+      { intros i Ai R. unfold reg_remove in R.
+        destruct (N.eqb_spec i daemon_oid) as [Ed|Nd].
+        - destruct (N.eqb_spec i n) as [En|Nn]; [left; congruence|].
+          apply EXT; [|assumption]. destruct Ai as [->|[->| ->]]; cbn; apply N.eqb_neq; assumption.
+        - unfold reg_set in R. destruct (N.eqb_spec n i) as [En|Nn]; [discriminate|].
+          apply EXT; [|assumption].
+          destruct Ai as [->|[->| ->]]; cbn; apply N.eqb_neq; intros X; apply Nn; auto. }
+      destruct a as [i|i|i|i]; cbn in H.
+      * unfold reg_set in H. destruct (N.eqb_spec n i) as [En|Nn].
+        -- subst i. right. exists pre, []. split; [reflexivity|]. intros a [].
+        -- apply EXT; [reflexivity|assumption].
+      * apply (REM i); auto.
+      * apply (REM i); auto.
+      * apply (REM i); auto.
+Qed.
+
 (* a fresh connection has not been written to *)
 Lemma fresh_untouched : forall g sty, cfg_facts g -> forall pre c,
-  fresh g sty pre c -> forall x, In x pre -> e_conn x <> c.
+  fresh g sty pre c -> forall x, In x pre -> ev_conn x <> Some c.
 Proof.
   intros g sty F pre. unfold fresh. induction pre as [|e pre IH] using rev_ind; intros c H x Hx.
   - contradiction.
-  - rewrite final_snoc in H. apply step_fresh_inv in H; [|assumption]. destruct H as [H N].
-    apply in_app_or in Hx. destruct Hx as [Hx|[Hx|[]]].
-    + eapply IH; eassumption.
-    + subst x. auto.
+  - rewrite final_snoc in H. apply in_app_or in Hx. destruct e as [ce|a].
+    + cbn in H. apply step_fresh_inv in H; [|assumption]. destruct H as [H N].
+      destruct Hx as [Hx|[Hx|[]]].
+      * eapply IH; eassumption.
+      * subst x. cbn. intros E. inversion E. auto.
+    + cbn in H. destruct Hx as [Hx|[Hx|[]]].
+      * eapply IH; eassumption.
+      * subst x. cbn. discriminate.
 Qed.
 
 (* a connection nobody has written to is fresh, unless the daemon's request loop was ended
    (multiplex server, a validator raising a BaseException-only class) *)
 Lemma untouched_cases : forall g sty, cfg_facts g -> forall pre c,
-  (forall x, In x pre -> e_conn x <> c) ->
+  (forall x, In x pre -> ev_conn x <> Some c) ->
   fresh g sty pre c \/
-  (final g sty init pre c = Abandoned /\ sty = Multiplex /\
-   exists x, In x pre /\ validator_aborts g sty x = true).
+  (s_conns (final g sty init_state pre) c = Abandoned /\ sty = Multiplex /\
+   exists ce, In (EvConn ce) pre /\ validator_aborts g sty ce = true).
 Proof.
   intros g sty F pre. unfold fresh. induction pre as [|e pre IH] using rev_ind; intros c H.
   - left. reflexivity.
   - rewrite final_snoc.
-    assert (N : c <> e_conn e). { intros E. apply (H e); [apply in_or_app; right; left; reflexivity | auto]. }
-    assert (H' : forall x, In x pre -> e_conn x <> c). { intros x Hx. apply H. apply in_or_app. auto. }
-    destruct (step_other g sty (final g sty init pre) e c F N) as [S|(S & M & _ & V)].
-    + rewrite S. destruct (IH c H') as [I|(I & M & x & Hx & V)]; [left; assumption|].
-      right. split; [assumption|]. split; [assumption|]. exists x. split; [apply in_or_app; auto|assumption].
-    + right. split; [assumption|]. split; [assumption|]. exists e. split; [apply in_or_app; right; left; reflexivity|assumption].
+    assert (H' : forall x, In x pre -> ev_conn x <> Some c). { intros x Hx. apply H. apply in_or_app. auto. }
+    assert (LIFT : s_conns (final g sty init_state pre) c = NotHandshaken \/
+                   (s_conns (final g sty init_state pre) c = Abandoned /\ sty = Multiplex /\
+                    exists ce, In (EvConn ce) (pre ++ [e]) /\ validator_aborts g sty ce = true)).
+    { destruct (IH c H') as [I|(I & M & x & Hx & V)]; [left; assumption|].
+      right. split; [assumption|]. split; [assumption|]. exists x. split; [apply in_or_app; auto|assumption]. }
+    destruct e as [ce|a].
+    + assert (N : c <> e_conn ce).
+      { intros E. apply (H (EvConn ce)); [apply in_or_app; right; left; reflexivity | cbn; congruence]. }
+      cbn.
+      destruct (step_other g sty (s_reg (final g sty init_state pre)) (s_conns (final g sty init_state pre)) ce c F N)
+        as [S|(S & M & _ & V)].
+      * rewrite S. exact LIFT.
+      * right. split; [assumption|]. split; [assumption|]. exists ce.
+        split; [apply in_or_app; right; left; reflexivity|assumption].
+    + cbn. exact LIFT.
 Qed.
 
 Lemma fresh_if_untouched : forall g sty, cfg_facts g -> forall pre c,
-  (forall x, In x pre -> e_conn x <> c) ->
-  (forall x, In x pre -> sty = Multiplex -> validator_aborts g sty x = false) ->
+  (forall x, In x pre -> ev_conn x <> Some c) ->
+  (forall ce, In (EvConn ce) pre -> sty = Multiplex -> validator_aborts g sty ce = false) ->
   fresh g sty pre c.
 Proof.
   intros g sty F pre c H K. destruct (untouched_cases g sty F pre c H) as [I|(_ & M & x & Hx & V)]; [assumption|].
   rewrite (K x Hx M) in V. discriminate.
 Qed.
 
-(* THE INVARIANT: a connection is in state Accepted only if its first event was an accepted CONNECT *)
+(* THE INVARIANT: a connection is in state Accepted only if its first event was a CONNECT that was accepted
+   against the registry of that moment *)
 Lemma accepted_has_connect : forall g sty, cfg_facts g -> forall pre c,
-  final g sty init pre c = Accepted ->
-  exists p1 e0 p2, pre = p1 ++ e0 :: p2 /\ e_conn e0 = c /\ fresh g sty p1 c /\
-    is_accepted_connect g sty e0 = true /\
-    exists m0, e_in e0 = InMsg m0 /\ outs_of g sty p1 e0 = [Reply c RConnectOk (m_seq m0) (m_ser m0)].
+  s_conns (final g sty init_state pre) c = Accepted ->
+  exists p1 ce0 p2, pre = p1 ++ EvConn ce0 :: p2 /\ e_conn ce0 = c /\ fresh g sty p1 c /\
+    is_accepted_connect g sty (reg_after g sty p1) ce0 = true /\
+    exists m0, e_in ce0 = InMsg m0 /\ outs_of g sty p1 (EvConn ce0) = [Reply c RConnectOk (m_seq m0) (m_ser m0)].
 Proof.
   intros g sty F pre. induction pre as [|e pre IH] using rev_ind; intros c H.
   - discriminate.
-  - rewrite final_snoc in H. apply step_accepted_inv in H; [|assumption].
-    destruct H as [H|(E & S & A & m & I & O)].
+  - rewrite final_snoc in H. apply state_accepted_inv in H; [|assumption].
+    destruct H as [H|(ce & -> & E & S & A & m & I & O)].
     + destruct (IH _ H) as (p1 & e0 & p2 & -> & C & Fr & A & M).
       exists p1, e0, (p2 ++ [e]). split; [rewrite <- app_assoc; reflexivity|]. auto.
-    + exists pre, e, []. split; [reflexivity|]. split; [auto|]. split; [exact S|]. split; [assumption|].
+    + exists pre, ce, []. split; [reflexivity|]. split; [auto|]. split; [exact S|]. split; [exact A|].
       exists m. split; [assumption|]. exact O.
 Qed.
 
 (* Closed and Abandoned are absorbing, and such a connection produces nothing *)
-Lemma dead_stays : forall g sty, cfg_facts g -> forall mid st c,
-  dead (st c) = true -> dead (final g sty st mid c) = true.
+Lemma dead_stays : forall g sty, cfg_facts g -> forall mid s c,
+  dead (s_conns s c) = true -> dead (s_conns (final g sty s mid) c) = true.
 Proof.
-  intros g sty F mid. induction mid as [|e mid IH]; cbn; intros st c H; auto.
-  apply IH. destruct (Nat.eq_dec c (e_conn e)) as [E|N].
+  intros g sty F mid. induction mid as [|e mid IH]; cbn; intros s c H; auto.
+  apply IH. destruct e as [ce|a]; cbn; [|assumption].
+  destruct (Nat.eq_dec c (e_conn ce)) as [E|N].
   - subst c. rewrite step_dead by assumption. assumption.
-  - destruct (step_other g sty st e c F N) as [S|(S & _)]; rewrite S; [assumption|reflexivity].
+  - destruct (step_other g sty (s_reg s) (s_conns s) ce c F N) as [S|(S & _)]; rewrite S; [assumption|reflexivity].
 Qed.
 
-Lemma dead_silent : forall g sty st e, dead (st (e_conn e)) = true -> snd (step g sty st e) = [].
-Proof. intros. rewrite step_dead by assumption. reflexivity. Qed.
+Lemma dead_silent : forall g sty s ce, dead (s_conns s (e_conn ce)) = true -> snd (step g sty s (EvConn ce)) = [].
+Proof. intros. cbn. rewrite step_dead by assumption. reflexivity. Qed.
 
 Lemma dead_later_silent : forall g sty, cfg_facts g -> forall pre c,
-  dead (final g sty init pre c) = true ->
-  forall mid e', e_conn e' = c -> outs_of g sty (pre ++ mid) e' = [].
+  dead (s_conns (final g sty init_state pre) c) = true ->
+  forall mid ce', e_conn ce' = c -> outs_of g sty (pre ++ mid) (EvConn ce') = [].
 Proof.
-  intros g sty F pre c D mid e' C. unfold outs_of. apply dead_silent. rewrite C, final_app.
+  intros g sty F pre c D mid ce' C. unfold outs_of. apply dead_silent. rewrite C, final_app.
   apply dead_stays; assumption.
 Qed.
 
 (* ------------------------------------------------------------------ main theorems *)
 
 (* event form: whatever is executed (on an application object or on the daemon's own object) is
-   executed for an INVOKE of a connection whose first event was an accepted CONNECT *)
+   executed for an INVOKE of a connection whose first event was a CONNECT accepted against the registry
+   of that moment *)
 Theorem exec_needs_accepted_connect : forall g sty, cfg_ok g = true ->
   forall pre e c t tok, In (Exec c t tok) (outs_of g sty pre e) ->
-  e_conn e = c /\ (exists m, e_in e = InMsg m /\ m_type m = c_invoke g) /\
-  exists p1 e0 p2, pre = p1 ++ e0 :: p2 /\ e_conn e0 = c /\ fresh g sty p1 c /\
-    is_accepted_connect g sty e0 = true /\
-    exists m0, e_in e0 = InMsg m0 /\ outs_of g sty p1 e0 = [Reply c RConnectOk (m_seq m0) (m_ser m0)].
+  (exists ce, e = EvConn ce /\ e_conn ce = c /\ exists m, e_in ce = InMsg m /\ m_type m = c_invoke g) /\
+  exists p1 ce0 p2, pre = p1 ++ EvConn ce0 :: p2 /\ e_conn ce0 = c /\ fresh g sty p1 c /\
+    is_accepted_connect g sty (reg_after g sty p1) ce0 = true /\
+    exists m0, e_in ce0 = InMsg m0 /\ outs_of g sty p1 (EvConn ce0) = [Reply c RConnectOk (m_seq m0) (m_ser m0)].
 Proof.
   intros g sty OK pre e c t tok H. apply cfg_ok_facts in OK.
-  unfold outs_of in H. apply step_exec_accepted in H; [|assumption]. destruct H as (E & S & T).
-  split; [auto|]. split; [assumption|].
+  unfold outs_of in H. apply state_exec in H; [|assumption]. destruct H as (S & T).
+  split; [assumption|].
   exact (accepted_has_connect g sty OK pre c S).
+Qed.
+
+(* an accepted CONNECT names an object id that the application has registered and not removed at that moment *)
+Theorem accepted_connect_object_registered : forall g sty pre ce,
+  is_accepted_connect g sty (reg_after g sty pre) ce = true ->
+  exists m n, e_in ce = InMsg m /\ m_hs m = HsFull (ObjId n) /\ reg_of_history reg_init pre n = true /\
+    (n = daemon_oid \/
+     exists p1 p2, pre = p1 ++ EvApp (Register n) :: p2 /\ forall a, In (EvApp a) p2 -> removes a n = false).
+Proof.
+  intros g sty pre ce H. unfold is_accepted_connect in H. rewrite reg_after_spec in H.
+  apply andb_true_iff in H. destruct H as [_ H].
+  destruct (e_in ce) as [m| |]; try discriminate.
+  unfold is_accepted_msg in H.
+  apply andb_true_iff in H. destruct H as [H _].
+  apply andb_true_iff in H. destruct H as [_ H].
+  destruct (m_hs m) as [| | |[n|]] eqn:HS; try discriminate. cbn in H.
+  exists m, n. split; [reflexivity|]. split; [exact HS|]. split; [assumption|].
+  apply registered_means_registered. assumption.
 Qed.
 
 (* trace form, by an invariant relating the state to the trace emitted so far *)
 Lemma exec_after_connectok_gen : forall g sty, cfg_facts g -> forall evs st acc c t tok t1 t2,
-  (forall c', st c' = Accepted -> exists s i, In (Reply c' RConnectOk s i) acc) ->
+  (forall c', s_conns st c' = Accepted -> exists s i, In (Reply c' RConnectOk s i) acc) ->
   concat (run g sty st evs) = t1 ++ Exec c t tok :: t2 ->
   exists s i, In (Reply c RConnectOk s i) (acc ++ t1).
 Proof.
   intros g sty F evs. induction evs as [|e evs IH]; intros st acc c t tok t1 t2 I H.
   - cbn in H. destruct t1; discriminate.
   - cbn in H.
-    assert (I' : forall c', fst (step g sty st e) c' = Accepted ->
+    assert (I' : forall c', s_conns (fst (step g sty st e)) c' = Accepted ->
                  exists s i, In (Reply c' RConnectOk s i) (acc ++ snd (step g sty st e))).
-    { intros c' A. apply step_accepted_inv in A; [|assumption].
-      destruct A as [A|(_ & _ & _ & m & _ & O)].
+    { intros c' A. apply state_accepted_inv in A; [|assumption].
+      destruct A as [A|(ce & _ & _ & _ & _ & m & _ & O)].
       - destruct (I _ A) as (s & i & R). exists s, i. apply in_or_app. auto.
       - rewrite O. eexists; eexists. apply in_or_app. right. left. reflexivity. }
     apply app_eq_app in H. destruct H as [l [[H1 H2]|[H1 H2]]].
@@ -381,7 +511,7 @@ Proof.
       * cbn in H2. inversion H2; subst x. clear H2.
         assert (X : In (Exec c t tok) (snd (step g sty st e))).
         { rewrite H1. apply in_or_app. right. left. reflexivity. }
-        apply step_exec_accepted in X; [|assumption]. destruct X as (E & S & _).
+        apply state_exec in X; [|assumption]. destruct X as (S & _).
         destruct (I _ S) as (s & i & R). exists s, i. apply in_or_app. auto.
     + destruct (IH (fst (step g sty st e)) (acc ++ snd (step g sty st e)) c t tok l t2 I' H2) as (s & i & R).
       exists s, i. rewrite H1. rewrite app_assoc. exact R.
@@ -392,20 +522,24 @@ Theorem no_exec_before_handshake : forall g sty, cfg_ok g = true ->
   exists s i, In (Reply c RConnectOk s i) t1.
 Proof.
   intros g sty OK evs t1 c t tok t2 H. apply cfg_ok_facts in OK.
-  apply (exec_after_connectok_gen g sty OK evs init [] c t tok t1 t2); auto.
+  apply (exec_after_connectok_gen g sty OK evs init_state [] c t tok t1 t2); auto.
   intros c' A. discriminate.
 Qed.
 
-(* CONNECTOK is only ever sent in answer to an accepted CONNECT that is the connection's first event *)
+(* CONNECTOK is only ever sent in answer to a CONNECT that is the connection's first event and is accepted
+   against the registry of that moment *)
 Theorem connectok_only_for_accepted_connect : forall g sty, cfg_ok g = true ->
   forall pre e c s i, In (Reply c RConnectOk s i) (outs_of g sty pre e) ->
-  e_conn e = c /\ fresh g sty pre c /\ is_accepted_connect g sty e = true.
+  exists ce, e = EvConn ce /\ e_conn ce = c /\ fresh g sty pre c /\
+    is_accepted_connect g sty (reg_after g sty pre) ce = true.
 Proof.
   intros g sty OK pre e c s i H. apply cfg_ok_facts in OK.
-  unfold outs_of in H. unfold fresh.
-  destruct (final g sty init pre (e_conn e)) eqn:S.
+  unfold outs_of in H. destruct e as [ce|a]; [|contradiction]. exists ce. split; [reflexivity|].
+  cbn in H. unfold fresh, reg_after.
+  destruct (s_conns (final g sty init_state pre) (e_conn ce)) eqn:S.
   - rewrite step_fresh in H by assumption. cbn in H.
-    destruct (step_first_cases g sty e OK) as [(A & _ & m & I & X)|[(_ & _ & s0 & o & X & _ & Ro & _)|(_ & _ & rs & X & R)]];
+    destruct (step_first_cases g sty (s_reg (final g sty init_state pre)) ce OK)
+      as [(A & _ & m & I & X)|[(_ & _ & s0 & o & X & _ & Ro & _)|(_ & _ & rs & X & R)]];
       rewrite X in H; cbn in H.
     + destruct H as [H|[]]. inversion H; subst. auto.
     + exfalso. destruct Ro as [->| ->]; cbn in H; [contradiction|]. destruct H as [H|[]]. discriminate.
@@ -419,65 +553,68 @@ Proof.
 Qed.
 
 (* what the first event of a fresh connection produces *)
-Lemma first_outs : forall g sty pre e, fresh g sty pre (e_conn e) ->
-  outs_of g sty pre e = snd (fst (step_first g sty e)) /\
-  final g sty init (pre ++ [e]) (e_conn e) = fst (fst (step_first g sty e)).
+Lemma first_outs : forall g sty pre ce, fresh g sty pre (e_conn ce) ->
+  outs_of g sty pre (EvConn ce) = snd (fst (step_first g sty (reg_after g sty pre) ce)) /\
+  s_conns (final g sty init_state (pre ++ [EvConn ce])) (e_conn ce) = fst (fst (step_first g sty (reg_after g sty pre) ce)).
 Proof.
-  intros g sty pre e Fr. unfold outs_of. rewrite final_snoc. rewrite step_fresh by exact Fr. cbn.
+  intros g sty pre ce Fr. unfold outs_of, reg_after. rewrite final_snoc. cbn. rewrite step_fresh by exact Fr. cbn.
   split; [reflexivity|]. apply upd_same.
 Qed.
 
+Lemma snoc_mid : forall (pre : list event) e mid, pre ++ e :: mid = (pre ++ [e]) ++ mid.
+Proof. intros. rewrite <- app_assoc. reflexivity. Qed.
+
 (* A failing first event of a fresh connection.  Either the validator raised a BaseException-only class
-   (open finding): nothing at all comes out — no execution, but also no answer and no close.  Or: at most
-   one reply, a CONNECTFAIL, then the socket is closed.  In both cases nothing the connection sends
-   afterwards produces anything. *)
+   (open finding): no reply comes out, nothing is executed.  Or: at most one reply, a CONNECTFAIL, then the
+   socket is closed.  In both cases nothing the connection sends afterwards produces anything. *)
 Theorem failed_handshake_closes : forall g sty, cfg_ok g = true ->
-  forall pre e c, e_conn e = c -> fresh g sty pre c ->
-  is_accepted_connect g sty e = false ->
-  ((validator_aborts g sty e = true /\ (outs_of g sty pre e = [] \/ outs_of g sty pre e = [SockClosed c])) \/
-   (validator_aborts g sty e = false /\
-    exists rs, outs_of g sty pre e = rs ++ [SockClosed c] /\
+  forall pre ce c, e_conn ce = c -> fresh g sty pre c ->
+  is_accepted_connect g sty (reg_after g sty pre) ce = false ->
+  ((validator_aborts g sty ce = true /\
+    (outs_of g sty pre (EvConn ce) = [] \/ outs_of g sty pre (EvConn ce) = [SockClosed c])) \/
+   (validator_aborts g sty ce = false /\
+    exists rs, outs_of g sty pre (EvConn ce) = rs ++ [SockClosed c] /\
                (rs = [] \/ exists r s i, rs = [Reply c (RConnectFail r) s i]))) /\
-  (forall mid e', e_conn e' = c -> outs_of g sty (pre ++ e :: mid) e' = []).
+  (forall mid ce', e_conn ce' = c -> outs_of g sty (pre ++ EvConn ce :: mid) (EvConn ce') = []).
 Proof.
   intros g sty OK pre e c C Fr A. apply cfg_ok_facts in OK. subst c.
   destruct (first_outs g sty pre e Fr) as [O S].
-  destruct (step_first_cases g sty e OK) as [(A' & _)|[(_ & V & s0 & o & X & D & Ro & _)|(_ & V & rs & X & R)]].
+  destruct (step_first_cases g sty (reg_after g sty pre) e OK)
+    as [(A' & _)|[(_ & V & s0 & o & X & D & Ro & _)|(_ & V & rs & X & R)]].
   - rewrite A in A'. discriminate.
   - split.
     + left. split; [assumption|]. rewrite O, X. cbn. exact Ro.
-    + intros mid e' C'.
-      replace (pre ++ e :: mid) with ((pre ++ [e]) ++ mid) by (rewrite <- app_assoc; reflexivity).
-      apply (dead_later_silent g sty OK (pre ++ [e]) (e_conn e)); [|assumption].
+    + intros mid e' C'. rewrite snoc_mid.
+      apply (dead_later_silent g sty OK (pre ++ [EvConn e]) (e_conn e)); [|assumption].
       rewrite S, X. cbn. exact D.
   - split.
     + right. split; [assumption|]. exists rs. rewrite O, X. cbn. auto.
-    + intros mid e' C'.
-      replace (pre ++ e :: mid) with ((pre ++ [e]) ++ mid) by (rewrite <- app_assoc; reflexivity).
-      apply (dead_later_silent g sty OK (pre ++ [e]) (e_conn e)); [|assumption].
+    + intros mid e' C'. rewrite snoc_mid.
+      apply (dead_later_silent g sty OK (pre ++ [EvConn e]) (e_conn e)); [|assumption].
       rewrite S, X. reflexivity.
 Qed.
 
 (* the outcome of a validator that raises a BaseException-only class, stated on its own *)
 Theorem validator_abort_outcome : forall g sty, cfg_ok g = true ->
-  forall pre e c, e_conn e = c -> fresh g sty pre c -> validator_aborts g sty e = true ->
-  (outs_of g sty pre e = [] \/ outs_of g sty pre e = [SockClosed c]) /\
-  (sty = Thread -> outs_of g sty pre e = []) /\
-  (forall mid e', e_conn e' = c -> outs_of g sty (pre ++ e :: mid) e' = []) /\
-  (sty = Multiplex -> forall mid e', outs_of g sty (pre ++ e :: mid) e' = []).
+  forall pre ce c, e_conn ce = c -> fresh g sty pre c -> validator_aborts g sty ce = true ->
+  (outs_of g sty pre (EvConn ce) = [] \/ outs_of g sty pre (EvConn ce) = [SockClosed c]) /\
+  (sty = Thread -> outs_of g sty pre (EvConn ce) = []) /\
+  (forall mid ce', e_conn ce' = c -> outs_of g sty (pre ++ EvConn ce :: mid) (EvConn ce') = []) /\
+  (sty = Multiplex -> forall mid e', outs_of g sty (pre ++ EvConn ce :: mid) e' = []).
 Proof.
   intros g sty OK pre e c C Fr V. pose proof (cfg_ok_facts g OK) as F. subst c.
   destruct (first_outs g sty pre e Fr) as [O S].
-  destruct (step_first_cases g sty e F) as [(_ & V' & _)|[(A & _ & s0 & o & X & D & Ro & RT)|(_ & V' & _)]];
+  destruct (step_first_cases g sty (reg_after g sty pre) e F)
+    as [(_ & V' & _)|[(A & _ & s0 & o & X & D & Ro & RT)|(_ & V' & _)]];
     try (rewrite V in V'; discriminate).
   destruct (failed_handshake_closes g sty OK pre e (e_conn e) eq_refl Fr A) as [_ L].
   split; [rewrite O, X; exact Ro|]. split; [|split; [exact L|]].
   - intros T. rewrite O, X. cbn. exact (RT T).
-  - intros M mid e'. subst sty.
-    replace (pre ++ e :: mid) with ((pre ++ [e]) ++ mid) by (rewrite <- app_assoc; reflexivity).
-    apply (dead_later_silent g Multiplex F (pre ++ [e]) (e_conn e')); [|reflexivity].
-    rewrite final_snoc, step_fresh by exact Fr. rewrite X. cbn.
-    destruct (Nat.eq_dec (e_conn e') (e_conn e)) as [E|N].
+  - intros M mid e'. subst sty. destruct e' as [ce'|a]; [|reflexivity].
+    rewrite snoc_mid.
+    apply (dead_later_silent g Multiplex F (pre ++ [EvConn e]) (e_conn ce')); [|reflexivity].
+    rewrite final_snoc. cbn. rewrite step_fresh by exact Fr. unfold reg_after in X. rewrite X. cbn.
+    destruct (Nat.eq_dec (e_conn ce') (e_conn e)) as [E|N].
     + rewrite E, upd_same. exact D.
     + rewrite upd_other by assumption. reflexivity.
 Qed.
@@ -485,9 +622,9 @@ Qed.
 (* a connection that was never written to but is not fresh: the multiplex daemon's loop was ended by such a
    validator earlier; nothing is served (hence nothing executed) for it *)
 Theorem loop_killed_nothing_served : forall g sty, cfg_ok g = true ->
-  forall pre c, (forall x, In x pre -> e_conn x <> c) -> ~ fresh g sty pre c ->
-  sty = Multiplex /\ (exists x, In x pre /\ validator_aborts g sty x = true) /\
-  forall mid e', e_conn e' = c -> outs_of g sty (pre ++ mid) e' = [].
+  forall pre c, (forall x, In x pre -> ev_conn x <> Some c) -> ~ fresh g sty pre c ->
+  sty = Multiplex /\ (exists ce, In (EvConn ce) pre /\ validator_aborts g sty ce = true) /\
+  forall mid ce', e_conn ce' = c -> outs_of g sty (pre ++ mid) (EvConn ce') = [].
 Proof.
   intros g sty OK pre c U NF. apply cfg_ok_facts in OK.
   destruct (untouched_cases g sty OK pre c U) as [I|(I & M & X)]; [contradiction|].
@@ -497,26 +634,26 @@ Qed.
 
 (* the reason is carried, for the causes the property names and for the transport-level refusals *)
 Theorem failure_reason_carried : forall g sty, cfg_ok g = true ->
-  forall pre e c, e_conn e = c -> fresh g sty pre c ->
+  forall pre ce c, e_conn ce = c -> fresh g sty pre c ->
   (* (a) the first message is well-framed but not a CONNECT *)
-  (forall m, e_in e = InMsg m -> m_wf m <> WfBadHeader -> m_type m <> c_connect g ->
-     outs_of g sty pre e = [Reply c (RConnectFail RsnOther) 0%N (c_marshal g); SockClosed c]) /\
+  (forall m, e_in ce = InMsg m -> m_wf m <> WfBadHeader -> m_type m <> c_connect g ->
+     outs_of g sty pre (EvConn ce) = [Reply c (RConnectFail RsnOther) 0%N (c_marshal g); SockClosed c]) /\
   (* (b) the validator is reached and raises an Exception (and it is not the repaired silent quirk) *)
-  (forall m o cc, e_in e = InMsg m -> denied_applies sty e = false ->
+  (forall m o cc, e_in ce = InMsg m -> denied_applies sty ce = false ->
      m_wf m = WfOk -> m_type m = c_connect g -> m_ser_known m = true ->
      m_hs m = HsFull o -> m_val m = VRaise cc -> cc && q_silent_validator_cce g = false ->
-     outs_of g sty pre e = [Reply c (RConnectFail RsnValidator) (m_seq m) (m_ser m); SockClosed c]) /\
-  (* (c) the validator accepts but the requested object is not registered *)
-  (forall m s, e_in e = InMsg m -> denied_applies sty e = false ->
+     outs_of g sty pre (EvConn ce) = [Reply c (RConnectFail RsnValidator) (m_seq m) (m_ser m); SockClosed c]) /\
+  (* (c) the validator accepts but the requested object id is not registered at this moment *)
+  (forall m n s, e_in ce = InMsg m -> denied_applies sty ce = false ->
      m_wf m = WfOk -> m_type m = c_connect g -> m_ser_known m = true ->
-     m_hs m = HsFull ObjUnknown -> m_val m = VAccept s ->
-     outs_of g sty pre e = [Reply c (RConnectFail RsnUnknownObject) (m_seq m) (m_ser m); SockClosed c]) /\
+     m_hs m = HsFull (ObjId n) -> reg_of_history reg_init pre n = false -> m_val m = VAccept s ->
+     outs_of g sty pre (EvConn ce) = [Reply c (RConnectFail RsnUnknownObject) (m_seq m) (m_ser m); SockClosed c]) /\
   (* (d) the thread-pool server had no free worker: any well-formed CONNECT is refused with that reason *)
-  (forall m, e_in e = InMsg m -> denied_applies sty e = true -> m_wf m = WfOk -> m_type m = c_connect g ->
-     outs_of g sty pre e = [Reply c (RConnectFail RsnDenied) (m_seq m) (c_marshal g); SockClosed c]) /\
+  (forall m, e_in ce = InMsg m -> denied_applies sty ce = true -> m_wf m = WfOk -> m_type m = c_connect g ->
+     outs_of g sty pre (EvConn ce) = [Reply c (RConnectFail RsnDenied) (m_seq m) (c_marshal g); SockClosed c]) /\
   (* (e) the peer says nothing within COMMTIMEOUT *)
-  (e_in e = InSilence ->
-     outs_of g sty pre e = [Reply c (RConnectFail RsnOther) 0%N (c_marshal g); SockClosed c]).
+  (e_in ce = InSilence ->
+     outs_of g sty pre (EvConn ce) = [Reply c (RConnectFail RsnOther) 0%N (c_marshal g); SockClosed c]).
 Proof.
   intros g sty OK pre e c C Fr. apply cfg_ok_facts in OK. subst c.
   destruct (first_outs g sty pre e Fr) as [O _]. rewrite O.
@@ -530,8 +667,9 @@ Proof.
       destruct (m_wf m); try contradiction; reflexivity.
   - intros m o cc I D W T K H V Q. rewrite I, D. unfold hs_result.
     rewrite (cf_first g OK), memN_single, W, T, N.eqb_refl, K, H, V. cbn. rewrite Q. reflexivity.
-  - intros m s I D W T K H V. rewrite I, D. unfold hs_result.
-    rewrite (cf_first g OK), memN_single, W, T, N.eqb_refl, K, H, V. reflexivity.
+  - intros m n s I D W T K H R V. rewrite I, D. unfold hs_result.
+    rewrite (cf_first g OK), memN_single, W, T, N.eqb_refl, K, H, V. cbn.
+    rewrite reg_after_spec, R. reflexivity.
   - intros m I D W T. rewrite I, D. unfold hs_denied.
     rewrite (cf_first g OK), memN_single, W, T, N.eqb_refl. reflexivity.
   - intros I. rewrite I. destruct (denied_applies sty e); reflexivity.
@@ -541,9 +679,10 @@ Qed.
    honest exceptions: a peer that has already gone away cannot be answered, and the BaseException finding *)
 Theorem failed_handshake_always_answered : forall g sty, cfg_ok g = true ->
   q_silent_unknown_ser g = false -> q_silent_validator_cce g = false ->
-  forall pre e c, e_conn e = c -> fresh g sty pre c ->
-  is_accepted_connect g sty e = false -> peer_gone e = false -> validator_aborts g sty e = false ->
-  exists r s i, outs_of g sty pre e = [Reply c (RConnectFail r) s i; SockClosed c].
+  forall pre ce c, e_conn ce = c -> fresh g sty pre c ->
+  is_accepted_connect g sty (reg_after g sty pre) ce = false -> peer_gone ce = false ->
+  validator_aborts g sty ce = false ->
+  exists r s i, outs_of g sty pre (EvConn ce) = [Reply c (RConnectFail r) s i; SockClosed c].
 Proof.
   intros g sty OK Q1 Q2 pre e c C Fr A PG V. apply cfg_ok_facts in OK. subst c.
   destruct (first_outs g sty pre e Fr) as [O _]. rewrite O.
@@ -557,17 +696,21 @@ Proof.
   - destruct (e_in e) as [m| |]; try discriminate.
     + assert (B : abort_msg g m = false).
       { unfold abort_msg. rewrite <- andb_assoc. exact V. }
-      destruct (hs_result_refuse_answered g m OK Q1 Q2 A B) as (k & s & i & H).
+      destruct (hs_result_refuse_answered g (reg_after g sty pre) m OK Q1 Q2 A B) as (k & s & i & H).
       rewrite H. cbn. eexists; eexists; eexists; reflexivity.
     + cbn. eexists; eexists; eexists; reflexivity.
 Qed.
 
 (* a peer that goes away before completing its first message: closed, nothing else *)
 Theorem peer_gone_first : forall g sty, cfg_ok g = true ->
-  forall pre e c, e_conn e = c -> fresh g sty pre c -> e_in e = InPeerGone ->
-  outs_of g sty pre e = [SockClosed c].
+  forall pre ce c, e_conn ce = c -> fresh g sty pre c -> e_in ce = InPeerGone ->
+  outs_of g sty pre (EvConn ce) = [SockClosed c].
 Proof.
   intros g sty OK pre e c C Fr I. apply cfg_ok_facts in OK. subst c.
   destruct (first_outs g sty pre e Fr) as [O _]. rewrite O.
   unfold step_first. rewrite (gated_true g sty OK), I. destruct (denied_applies sty e); reflexivity.
 Qed.
+
+(* what the application does with its registry never produces output by itself *)
+Theorem app_event_silent : forall g sty pre a, outs_of g sty pre (EvApp a) = [].
+Proof. reflexivity. Qed.
